@@ -371,6 +371,33 @@ fn has_slice(p: &Pat) -> bool {
         Pat::Filter(_, i) | Pat::Graph(_, i) | Pat::Extend(i, _, _) | Pat::OrderBy(i, _) | Pat::Project(i, _) | Pat::Distinct(i) => has_slice(i),
     }
 }
+fn has_order(p: &Pat) -> bool {
+    match p {
+        Pat::OrderBy(..) => true,
+        Pat::Bgp(_) | Pat::Unsup(_) => false,
+        Pat::Union(l, r) => has_order(l) || has_order(r),
+        Pat::Filter(_, i) | Pat::Graph(_, i) | Pat::Extend(i, _, _) | Pat::Slice(i, _, _) | Pat::Project(i, _) | Pat::Distinct(i) => has_order(i),
+    }
+}
+/// an ORDER BY beneath an OFFSET / LIMIT: which rows the window keeps depends on the order the engine's sort produced
+fn order_under_slice(p: &Pat) -> bool {
+    match p {
+        Pat::Slice(i, _, _) => has_order(i),
+        Pat::Bgp(_) | Pat::Unsup(_) => false,
+        Pat::Union(l, r) => order_under_slice(l) || order_under_slice(r),
+        Pat::Filter(_, i) | Pat::Graph(_, i) | Pat::Extend(i, _, _) | Pat::OrderBy(i, _) | Pat::Project(i, _) | Pat::Distinct(i) => order_under_slice(i),
+    }
+}
+/// How the engine's rows are compared with the model's (Eval.query_ok's `in_order`).  The model reproduces the engine's
+/// iteration order exactly EXCEPT at ORDER BY, which it models by the identity permutation (the order is property C14):
+///  * no OFFSET / LIMIT: as multisets (the order is irrelevant to C13);
+///  * OFFSET / LIMIT and no ORDER BY: row by row, in order (that the same window was cut implies the same order below it);
+///  * OFFSET / LIMIT with ORDER BY only above or beside them: every window is still cut out of an unsorted sequence, which
+///    the model reproduces, and the engine then SORTS where the model does not: as multisets;
+///  * ORDER BY beneath an OFFSET / LIMIT: None, the model cannot tell which rows the window keeps.
+fn compare_in_order(p: &Pat) -> Option<bool> {
+    if order_under_slice(p) { None } else { Some(has_slice(p) && !has_order(p)) }
+}
 fn ex_unsupported(e: &Ex) -> bool {
     match e {
         Ex::Exists(p) => pat_unsupported(p),
@@ -542,7 +569,17 @@ fn eval(p: &Pat, ds: &Ds, g: &Option<T>) -> Result<Vec<Mu>, OErr> {
         Pat::OrderBy(i, _) => eval(i, ds, g)?,
         Pat::Project(i, vs) => eval(i, ds, g)?.into_iter().map(|mu| mu.into_iter().filter(|(k, _)| vs.contains(k)).collect()).collect(),
         Pat::Distinct(i) => { let mut seen = BTreeSet::new(); eval(i, ds, g)?.into_iter().filter(|mu| seen.insert(mu.clone())).collect() }
-        Pat::Slice(..) => return Err(OErr::Undetermined("nested OFFSET/LIMIT".into())),
+        // 18.5 Slice(ToList(M), start, length) below other operators: ToList may pick ANY order of the multiset, so the window
+        // is determined only when it keeps everything, nothing, or when all the solutions are the same mapping
+        Pat::Slice(i, s, l) => {
+            let inner = eval(i, ds, g)?;
+            let rest = inner.len().saturating_sub(*s);
+            let take = l.map_or(rest, |l| l.min(rest));
+            if take == 0 { vec![] }
+            else if take == inner.len() { inner }
+            else if inner.iter().all(|m| *m == inner[0]) { inner[..take].to_vec() }
+            else { return Err(OErr::Undetermined("nested OFFSET/LIMIT cutting a window out of different solutions".into())) }
+        }
         Pat::Unsup(_) => return Err(OErr::Unsupported),
     })
 }
@@ -883,6 +920,19 @@ fn directed() -> Vec<(&'static str, usize, String)> {
         ("exists-active-graph", 1, "SELECT * { GRAPH ?g { ?s <tag:p> ?o BIND(EXISTS { ?s <tag:q> ?z } AS ?e) } }".into()),
         // an unsupported operator hidden inside EXISTS (expressions are outside the Coq model)
         ("exists-hides-not-implemented", 1, "SELECT * { ?s <tag:p> ?o FILTER EXISTS { ?o <tag:p> ?z OPTIONAL { ?z <tag:p> ?w } } }".into()),
+        // ORDER BY above a sub-select with OFFSET / LIMIT (random cases 16363 and 19265 of seed 1, shrunk): the engine sorts
+        // the rows, the model's ORDER BY is the identity permutation, so these are compared as multisets (see `compare_in_order`)
+        ("order-over-nested-slice", 1, "SELECT * { { SELECT ?s ?o { ?s <tag:p> ?o } LIMIT 2 } } ORDER BY ?o".into()),
+        ("order-over-nested-slice", 1, "SELECT * { { SELECT ?s ?o { ?s <tag:p> ?o } LIMIT 2 } } ORDER BY DESC(?o)".into()),
+        ("order-over-nested-slice", 1, "SELECT DISTINCT * { { ?s <tag:p> ?o } UNION { { SELECT ?g { GRAPH ?g { } BIND(?x AS ?k1) } LIMIT 0 } } BIND(<tag:g1> AS ?k2) } ORDER BY ?s".into()),
+        ("order-over-nested-slice", 1, "SELECT DISTINCT * { { ?s <tag:p> ?o } UNION { { SELECT ?g { GRAPH ?g { } BIND(?x AS ?k1) } LIMIT 0 } } BIND(<tag:g1> AS ?k2) } ORDER BY DESC(?s)".into()),
+        ("order-over-nested-slice", 1, "SELECT * { GRAPH ?g { { ?s <tag:p> ?o } UNION { { SELECT ?g { ?s <tag:q> ?o } LIMIT 1 } BIND(1 AS ?k1) } } } ORDER BY ?o".into()),
+        ("order-over-nested-slice", 1, "SELECT * { GRAPH ?g { { ?s <tag:p> ?o } UNION { { SELECT ?g { ?s <tag:q> ?o } LIMIT 1 } BIND(1 AS ?k1) } } } ORDER BY DESC(?o)".into()),
+        // nested OFFSET / LIMIT whose window the oracle can determine: everything, nothing, identical solutions
+        ("nested-slice", 1, "SELECT * { { ?s <tag:q> ?o } UNION { { SELECT ?s { ?s <tag:p> ?o } LIMIT 0 } } }".into()),
+        ("nested-slice", 1, "SELECT * { { ?s <tag:q> ?o } UNION { { SELECT ?s { ?s <tag:p> ?o } LIMIT 7 } } }".into()),
+        ("nested-slice", 1, "SELECT * { { ?s <tag:q> ?o } UNION { { SELECT ?s { ?s <tag:p> ?o } OFFSET 5 } } }".into()),
+        ("nested-slice", 1, "SELECT * { { ?s <tag:q> ?o } UNION { { SELECT ?z { ?s <tag:p> ?o } OFFSET 1 LIMIT 1 } } }".into()),
     ]
 }
 fn directed_datasets() -> Vec<Vec<Quad4>> {
@@ -1022,7 +1072,7 @@ non-trivial = the engine returned at least one row / true, or an error was expec
         let observed = match &obs {
             Obs::Rows(vars, rows) => {
                 if rows.len() > 300 { sum.bump("coq:too-many-rows"); continue }
-                let in_order = pat.map_or(false, has_slice);
+                let Some(in_order) = pat.map_or(Some(false), compare_in_order) else { sum.bump("coq:skipped (ORDER BY beneath OFFSET/LIMIT: the kept rows depend on the order, C14)"); continue };
                 format!("(ORows {} {} {})", coq_list(vars.iter().map(|v| coq_str(v))), coq_list(rows.iter().map(|r| coq_list(r.iter().map(|t| coq_opt(t.as_ref().map(|t| t.coq())))))), coq_bool(in_order))
             }
             Obs::Bool(b) => format!("(OBool {})", coq_bool(*b)),
